@@ -290,6 +290,9 @@ def to_source(pipeline, indent=1):
 # ----------------------------------------------------------------------------- keys / predicates whose
 # values are equal (==) but never identical objects
 
+_NAN = float('nan')
+
+
 def _k_mixed(x):
     c = x % 10
     if c == 0:
@@ -331,6 +334,7 @@ FUNCS.update({
     'k_falsy': lambda x: [0, '', (), None, 'x'][x % 10 % 5],          # four distinct falsy key values
     'k_bool': lambda x: [True, 1, 1.0, False, 0.0][x % 10 % 5],          # True == 1 == 1.0 and False == 0.0: two groups, five spellings
     'p_mixed': _p_mixed,
+    'p_nan': lambda x: [float('nan'), _NAN, 1.0][x % 10 % 3],      # a value that differs (!=) from itself: a fresh NaN, one shared NaN object, 1.0
     'p_big': lambda x: 10 ** 20 + (x % 10),
     'p_hash': lambda x: [-1, -2, 5 + (2 ** 61 - 1), 5][x % 10 % 4],            # distinct values, pairwise equal hashes
     'p_prefix': lambda x: [('a',), ('a', 'b'), ()][x % 10 % 3],                # tuples in prefix relation
